@@ -252,6 +252,36 @@ def run(ck, facts, tier):
         else:
             ck.violation(R, "aggregate_name_and_substs", ns.where(), "must be `names differ || zip(..).any(aggregate_generic_args)`")
 
+    # ------------------------------------------------------------------ LEAF-EQUALITY
+    R = "C17.LEAF-EQUALITY"
+    ck.rule(R, "K1: inside AntiUnifier and MayInvalidate an identity test that decides whether a non-term component (name, placeholder "
+               "index, scalar, mutability, lifetime, const) is *kept* / *unchanged* compares the two whole components: both operands of "
+               "every `==` / `!=` are the bound components themselves, never a projection of them (a field, a method result) - equal "
+               "projections of different values would keep one side's value although the other answer is not an instance of it")
+    n = 0
+    for key, b in sorted(facts.bodies("chalk_engine").items()):
+        if not (("slg::aggregate::AntiUnifier::" in key or "slg::MayInvalidate::" in key) and "{" not in key):
+            continue
+        th = facts.thir(key)
+        for x in walk(th):
+            ops = None
+            if x.get("k") == "bin" and x.get("op") in ("Eq", "Ne"):
+                ops = [x["l"], x["r"]]
+            elif x.get("k") == "call" and callee_matches(x, ("PartialEq::eq", "PartialEq::ne")):
+                ops = x["args"][:2]
+            if ops is None or "assert" in str(x.get("x", "")):
+                continue
+            n += 1
+            fn = key.split("::")[-1]
+            shapes = [peel(o).get("k") for o in ops]
+            names = [var_name(peel(o)) or "?" for o in ops]
+            inst = "%s:%s:%s%s%s" % (key.split("::")[-2], fn, names[0], "==" , names[1])
+            if all(sh == "var" for sh in shapes):
+                ck.ok(R, inst, "whole components compared")
+            else:
+                ck.violation(R, inst, b.where(x.get("ln")), "an identity test compares %s instead of the two whole components" % shapes)
+    ck.floor(R, "identity-tests", n, 16)
+
     # ------------------------------------------------------------------ SYMMETRY
     R = "C17.SYMMETRY"
     ck.rule(R, "K1: Solution::combine returns the common value when equal, has mirrored trivially-true shortcuts for self and other, "
